@@ -269,6 +269,28 @@ impl<'de> Deserialize<'de> for En {
         d.deserialize_enum("En", &["A", "B"], V)
     }
 }
+/// a payload larger than a page (any size-dependent fast path in the handle's impls)
+#[derive(Clone, PartialEq)]
+pub struct Huge {
+    tag: u8,
+    pad: [u8; 8192],
+}
+impl fmt::Debug for Huge {
+    fn fmt(&self, f: &mut fmt::Formatter<'_>) -> fmt::Result {
+        write!(f, "Huge({})", self.tag)
+    }
+}
+impl Serialize for Huge {
+    fn serialize<S: Serializer>(&self, s: S) -> Result<S::Ok, S::Error> {
+        s.serialize_newtype_struct("Huge", &self.tag)
+    }
+}
+impl<'de> Deserialize<'de> for Huge {
+    fn deserialize<D: Deserializer<'de>>(d: D) -> Result<Huge, D::Error> {
+        let tag = u8::deserialize(d)?;
+        Ok(Huge { tag, pad: [tag; 8192] })
+    }
+}
 /// newtype + map + option + bytes paths
 #[derive(Debug, Clone, PartialEq)]
 pub struct Wr(Option<std::collections::BTreeMap<String, i64>>);
@@ -626,6 +648,7 @@ pub fn run(_tier: &str) -> Vec<Grid> {
         ser_case(&mut g, "Wr(newtype+option+map)", &w);
     }
     ser_case(&mut g, "Arc<Arc<u8>>", &Arc::new(5u8));
+    ser_case(&mut g, "Huge(8 KiB)", &Huge { tag: 3, pad: [3; 8192] });
 
     let mut d = Grid::new("c17.deserialize", "input trees (well-formed and ill-typed) for each payload type x failure injected at each k-th deserializer callback; Arc<T>/UniqueArc<T> give Ok iff T does, equal value, count 1, exactly one extra allocation; on Err the same error and nothing left allocated");
     let s = |x: &str| V::S(x.to_string());
@@ -639,6 +662,7 @@ pub fn run(_tier: &str) -> Vec<Grid> {
         de_case::<Option<u8>>(&mut d, "Option<u8>", inp);
         de_case::<Pt>(&mut d, "Pt(struct)", inp);
         de_case::<En>(&mut d, "En(enum)", inp);
+        de_case::<Huge>(&mut d, "Huge(8 KiB)", inp);
     }
     let mut ip = Grid::new("c17.in_place", "Deserialize::deserialize_in_place on Arc<T> (sole owner / shared with a sibling) and UniqueArc<T> x input tree x failure at each k-th callback: Ok leaves a fresh sole owner and the sibling untouched, Err leaves the place as it was, nothing leaks or is destroyed twice");
     let old_pt = Pt { x: 200, y: "old value kept on the heap".into(), z: vec![1, 2, 3] };
@@ -648,6 +672,7 @@ pub fn run(_tier: &str) -> Vec<Grid> {
         inplace_case::<Vec<u16>>(&mut ip, "Vec<u16>", inp, &vec![9, 9, 9, 9]);
         inplace_case::<Pt>(&mut ip, "Pt(struct)", inp, &old_pt);
         inplace_case::<(u8, String)>(&mut ip, "(u8,String)", inp, &(5, "old".to_string()));
+        inplace_case::<Huge>(&mut ip, "Huge(8 KiB)", inp, &Huge { tag: 9, pad: [9; 8192] });
     }
     vec![g, d, ip]
 }
